@@ -165,6 +165,22 @@ def cmd_replay(a):
     return 0
 
 
+def cmd_reach(a):
+    """harness self-test: every declared fault kind and probe must have fired in the last evidence of each check"""
+    import glob
+    bad = 0
+    for f in sorted(glob.glob(os.path.join(ROOT, "evidence", "*.json"))):
+        e = json.load(open(f))
+        for w, info in e["coverage"].get("worlds", {}).items():
+            uf, up = info.get("unreached_faults", []), info.get("unreached_probes", [])
+            allowed = {"lock_raised", "libsecp256k1_replica", "observed_txdb_returned_unrequested_tx"}
+            up = [x for x in up if x not in allowed]
+            print("%s %-8s runs=%-8d unreached faults=%s probes=%s" % (e["property_id"], w, info["runs"], uf, up))
+            bad += len(uf) + len(up)
+    print("reach self-test: %d unreached counters (lock_raised, libsecp256k1_replica and observed_* are expected to stay at zero)" % bad)
+    return 1 if bad else 0
+
+
 def cmd_kats(a):
     from dsim.models import kats
     _assert_repo()
@@ -213,6 +229,8 @@ def main(argv=None):
     r.set_defaults(f=cmd_replay)
     k = sub.add_parser("kats")
     k.set_defaults(f=cmd_kats)
+    rr = sub.add_parser("selftest-reach")
+    rr.set_defaults(f=cmd_reach)
     d = sub.add_parser("run")
     d.add_argument("world")
     d.add_argument("--seed", type=int, default=1)
